@@ -587,6 +587,15 @@ class XsdAttributeGroup(
                 if attr.fixed is not None and attributes[name].fixed is None:
                     msg = _("Attribute {!r}: redefinition remove fixed constraint")
                     self.parse_error(msg.format(name))
+                elif attr.fixed is not None and attributes[name].type.normalize(
+                        attributes[name].fixed) != attr.type.normalize(attr.fixed):
+                    msg = _("Attribute {!r}: redefinition changes fixed constraint")
+                    self.parse_error(msg.format(name))
+                if attributes[name].use != 'prohibited' and \
+                        not attributes[name].type.is_derived(attr.type, 'restriction'):
+                    msg = _("Attribute {!r}: type is not a restriction of "
+                            "the type of the redefined attribute")
+                    self.parse_error(msg.format(name))
 
             pos = 0
             keys = list(self._attribute_group.keys())
